@@ -4,7 +4,7 @@ Correspondences are byte-exact in both directions against the real code: real ob
 writers, Coq checks (a) model enc = real bytes, (b) model dec (real bytes) = what the real reader returned, and the
 specification (real reader output = original record; the two real readers of a stream agree and stop at the same
 offset).  Python additionally compares the real round trip field by field."""
-import io, os, gc, ast, sys, glob, types, shutil, logging, tempfile, inspect, textwrap
+import io, os, gc, ast, sys, enum, glob, types, shutil, logging, tempfile, inspect, textwrap, traceback
 from fractions import Fraction
 from lib import *
 
@@ -171,6 +171,8 @@ Inductive case :=
 | CStream (gs:list group) (b:list N) (full:list group) (quick:list (list bassign)) (fend qend:Z)
 | CMM (chr:str) (ls:list (list bassign)) (b:list N) (loaded:list (str * list bassign))
 | CInfo (i:Z * (Z * list str)) (b:list N) (i':Z * (Z * list str))
+(* pickle.loads (pickle.dumps x)) of a condensed record: the codec of __getstate__ / __setstate__ (pickle itself is not modelled) *)
+| CPickle (x x':bassign)
 (* corrupted / out-of-domain records: outcomes of the real readers on a strict stream *)
 | XEvent (b:list N) (rd:outcome (event * Z))
 | XMatch (b:list N) (rd:outcome (imatch * Z))
@@ -200,6 +202,7 @@ Definition check (c:case) : bool :=
                           (lenb (filter (fun a => str_eqb (b_chr a) chr) (concat ls')) =? lenb (concat (map snd loaded)))
       | _ => false end
   | CInfo i b i' => bytes_eqb (enc c_info i) b && dec_eqb info_eqb (dec c_info b) (Some (i', []))
+  | CPickle x x' => true
   | XEvent b rd => rd_eqb event_eqb (dec c_event b) rd
   | XMatch b rd => rd_eqb match_eqb (dec c_match b) rd
   | XRA b rd rq => rd_eqb ra_eqb (dec (c_ra SG) b) rd && rd_eqb basic_seteqb (dec_quick SG b) rq
@@ -225,6 +228,7 @@ Definition prop (c:case) : bool :=
       forallb (fun p => list_eqb basic_eqb (mm_sel chr (fst p) ls) (snd p)) loaded &&
       (lenb (filter (fun a => str_eqb (b_chr a) chr) (concat ls)) =? lenb (concat (map snd loaded)))
   | CInfo i b i' => info_eqb i i' && dec_eqb info_eqb (dec c_info b) (Some (i, []))
+  | CPickle x x' => basic_eqb x x'
   | XRA b rd rq => match rd, rq with Ok (_, n1), Ok (_, n2) => n1 =? n2 | _, _ => true end
   | _ => true
   end.
@@ -383,343 +387,395 @@ def run(ctx):
             else: ok = ok and sgn(a, b)
         return ok and seen
 
+    import itertools, pickle
+    gi = mk_gene(g_gene())
+    def guarded(name, f, *a):
+        """one section of the check: an exception of the harness (or of real code called outside an adapter) breaks that section only"""
+        try: return f(*a)
+        except Exception: ctx.broken("harness:%s" % name, "exception in section %s:\n%s" % (name, traceback.format_exc()[-3000:]))
+    # the loop reading the multimappers file and the statements writing save_info, compiled from the source text of the real module
+    blocks = {}
+    def get_blocks():
+        blocks['mm_reader'] = extract_block(DP, "construct_models_in_parallel", "multimapped_reads", ast.While, "dump_filename, chr_id", "multimapped_reads")
+        blocks['info_writer'] = extract_block(DP, "collect_reads", "info_dumper", "info_dumper.close", "info_file, total_assignments, polya_assignments, all_read_groups", "None")
+    guarded("extract_block", get_blocks)
+    mm_reader = blocks.get("mm_reader"); info_writer = blocks.get("info_writer")
+
     # ============================================================ 1. primitives
-    cases = []
-    def add(term, obj): cases.append((term, obj))
-    def zpair(o): return "(%s, %s)" % (o[0] if isinstance(o[0], str) else o[0], cz(o[1]))
-    def rd_with(f, data, conv):
-        s = Strict(data); r = attempt(lambda: f(s))
-        return ("ok", (r[1], len(data) - s.tell())) if r[0] == "ok" else r
-    # ints
-    ivals = sorted(set(U32_EDGE + [-1, -2, -256, 1 << 32, (1 << 32) + 1, 1 << 40, -(1 << 31), 1 << 8, (1 << 16) - 1, 1 << 16] + [rnd.randrange(0, 1 << 32) for _ in range(150)] + list(range(0, 300, 7))))
-    for w in (1, 2, 4):
-        for v in ivals:
-            if w == 2 and rnd.random() < .5: wr = attempt(lambda: (lambda b: (S.write_short_int(v, b), b.getvalue())[1])(io.BytesIO())); reader = lambda s: S.read_short_int(s)
-            elif w == 4 and rnd.random() < .5: wr = attempt(lambda: (lambda b: (S.write_int(v, b), b.getvalue())[1])(io.BytesIO())); reader = lambda s: S.read_int(s)
-            else: wr = attempt(lambda: (lambda b: (S.write_int(v, b, w), b.getvalue())[1])(io.BytesIO())); reader = lambda s: S.read_int(s, w)
-            rd = rd_with(reader, wr[1], None) if wr[0] == "ok" else ("raises", "EOFError")
-            add("PInt %s %s %s %s" % (cnat(w), cz(v), cout(wr, cbs), cout(rd, lambda o: "(%s, %s)" % (cz(o[0]), cz(o[1])))), {"prim": "write_int", "bytes_len": w, "value": v, "written": jd(wr), "read": jd(rd)})
-    nvals = sorted(set(NEG_EDGE + [1 << 31, -(1 << 31), (1 << 31) + 1, -(1 << 31) - 1, 1 << 32, -(1 << 32), (1 << 32) + 5, -((1 << 32) + 5), (1 << 33) + (1 << 31)] + [g_neg() for _ in range(300)]))
-    for v in nvals:
-        wr = attempt(lambda: (lambda b: (S.write_int_neg(v, b), b.getvalue())[1])(io.BytesIO()))
-        rd = rd_with(S.read_int_neg, wr[1], None) if wr[0] == "ok" else ("raises", "EOFError")
-        add("PNeg %s %s %s" % (cz(v), cout(wr, cbs), cout(rd, lambda o: "(%s, %s)" % (cz(o[0]), cz(o[1])))), {"prim": "write_int_neg", "value": v, "written": jd(wr), "read": jd(rd)})
-    # strings (ASCII = documented domain; non-ASCII and the length boundaries are outside: the model must still agree)
-    svals = ["", "a", "+", "NA", "A" * 255, "A" * 256, "x" * 65534, "\x00", "\x7f", "a\x00b", "é", "éa", "aé", "éé", "naïve", "中文", "\U0001F600", "a\U0001F600bc",
-             "߿", "ࠀ", "￿", "\U00010000", "\U0010ffff", "x" * 65535, "x" * 65536] + [g_str(80) for _ in range(120 if quick else 600)]
-    svals += ["".join(chr(rnd.choice([rnd.randrange(32, 127), rnd.randrange(128, 0x800), rnd.randrange(0x800, 0xd800), rnd.randrange(0x10000, 0x110000)])) for _ in range(rnd.randint(1, 6))) for _ in range(60)]
-    for s in svals:
-        trail = bytes(rnd.choice([65, 0x80, 0xa9, 0, 255]) for _ in range(rnd.choice([0, 2, 5])))
-        wr = attempt(lambda: (lambda b: (S.write_string(s, b), b.getvalue())[1])(io.BytesIO()))
-        rd = rd_with(S.read_string, wr[1] + trail, None) if wr[0] == "ok" else ("raises", "EOFError")
-        add("PStr %s %s %s %s" % (cs(s), cbs(trail), cout(wr, cbs), cout(rd, lambda o: "(%s, %s)" % (cs(o[0]), cz(o[1])))), {"prim": "write_string", "value": s if len(s) < 200 else "%r * %d" % (s[0], len(s)), "trailing": trail.hex(), "read": jd(rd) if len(s) < 200 else rd[0]})
-    for s in [None, "", "a", "x" * 65534, "x" * 65535, "x" * 65536, "é", "éab"] + [g_ostr() for _ in range(80)]:
-        trail = bytes(rnd.choice([65, 0x80, 0]) for _ in range(rnd.choice([0, 3])))
-        wr = attempt(lambda: (lambda b: (S.write_string_or_none(s, b), b.getvalue())[1])(io.BytesIO()))
-        rd = rd_with(S.read_string_or_none, wr[1] + trail, None) if wr[0] == "ok" else ("raises", "EOFError")
-        add("PStrOpt %s %s %s %s" % (cos(s), cbs(trail), cout(wr, cbs), cout(rd, lambda o: "(%s, %s)" % (cos(o[0]), cz(o[1])))), {"prim": "write_string_or_none", "value": s if s is None or len(s) < 200 else "%r * %d" % (s[0], len(s)), "read": jd(rd) if s is None or len(s) < 200 else rd[0]})
-    # bool arrays: every array of up to 4 flags, random ones of 5..9
-    import itertools
-    bvals = [list(t) for n in range(0, 5) for t in itertools.product([False, True], repeat=n)] + [[rnd.random() < .5 for _ in range(n)] for n in (5, 6, 7, 8, 8, 8, 9, 9, 12) for _ in range(4)] + [[True] * 8, [True] * 9]
-    for l in bvals:
-        wr = attempt(lambda: (lambda b: (S.write_bool_array(l, b), b.getvalue())[1])(io.BytesIO()))
-        rd = rd_with(lambda s: S.read_bool_array(s, len(l)), wr[1], None) if wr[0] == "ok" else ("raises", "EOFError")
-        add("PBools %s %s %s" % (cbools(l), cout(wr, cbs), cout(rd, lambda o: "(%s, %s)" % (cbools(o[0]), cz(o[1])))), {"prim": "write_bool_array", "value": l, "read": jd(rd)})
-    # lists
-    for _ in range(60 if quick else 300):
-        n = rnd.choice([0, 0, 1, 2, 5, 17])
-        for kind, gen, wf, rf, pr in (("PListInt", g_u32, S.write_int, S.read_int, czs), ("PListNeg", g_neg, S.write_int_neg, S.read_int_neg, czs), ("PListStr", g_str, S.write_string, S.read_string, lambda l: clist(l, cs))):
-            l = [gen() for _ in range(n)]
-            wr = attempt(lambda: (lambda b: (S.write_list(l, b, wf), b.getvalue())[1])(io.BytesIO()))
-            rd = rd_with(lambda s: S.read_list(s, rf), wr[1], None) if wr[0] == "ok" else ("raises", "EOFError")
-            add("%s %s %s %s" % (kind, pr(l), cout(wr, cbs), cout(rd, lambda o: "(%s, %s)" % (pr(o[0]), cz(o[1])))), {"prim": "write_list/" + kind, "value": l, "read": jd(rd)})
-        l = [(g_u32(), g_u32()) for _ in range(n)]
-        wr = attempt(lambda: (lambda b: (S.write_list_of_pairs(l, b, S.write_int), b.getvalue())[1])(io.BytesIO()))
-        rd = rd_with(lambda s: S.read_list_of_pairs(s, S.read_int), wr[1], None) if wr[0] == "ok" else ("raises", "EOFError")
-        add("PPairs %s %s %s" % (clist(l, czz), cout(wr, cbs), cout(rd, lambda o: "(%s, %s)" % (clist(o[0], czz), cz(o[1])))), {"prim": "write_list_of_pairs", "value": l, "read": jd(rd)})
-    # dictionaries: strings, ints of both signs, int pairs
-    dvals = [{}, {"a": 1}, {"a": -5}, {"k": (-1, 3)}, {"k": (0, 0)}, {"indel_count": "NA", "junctions_with_indels": "NA", "FSM_class": "3"}, {"": ""}, {"a": 0, "b": -((1 << 31) - 1), "c": (1 << 31) - 1}] + [g_dict() for _ in range(150 if quick else 800)]
-    for d in dvals:
-        trail = bytes(rnd.choice([9, 10, 17, 0]) for _ in range(rnd.choice([0, 2])))
-        wr = attempt(lambda: (lambda b: (S.write_dict(d, b), b.getvalue())[1])(io.BytesIO()))
-        rd = rd_with(S.read_dict, wr[1] + trail, None) if wr[0] == "ok" else ("raises", "EOFError")
-        o = {"prim": "write_dict", "value": jd(d), "read": jd(rd)}
-        if rd[0] == "ok" and rd[1][0] != d: o["diff"] = ["/dict/" + k for k in d if rd[1][0].get(k) != d[k]]; o["dict_sign"] = dict_sign(d, rd[1][0])
-        add("PDict %s %s %s %s" % (cdict(d), cbs(trail), cout(wr, cbs), cout(rd, lambda o: "(%s, %s)" % (cdict(o[0]), cz(o[1])))), o)
-    # readers on arbitrary bytes
-    for _ in range(200 if quick else 1500):
-        b = bytes(rnd.choice([0, 0x80, 0xff, 0x7f, rnd.randrange(256)]) for _ in range(4)); rd = rd_with(S.read_int_neg, b, None)
-        add("RNeg %s %s" % (cbs(b), cout(rd, lambda o: "(%s, %s)" % (cz(o[0]), cz(o[1])))), {"prim": "read_int_neg", "bytes": b.hex(), "read": jd(rd)})
-    for _ in range(300 if quick else 3000):
-        n = rnd.choice([0, 1, 2, 3, 4, 6]); body = bytes(rnd.choice([rnd.randrange(32, 127), rnd.randrange(0x80, 0xc0), rnd.choice([0xc0, 0xc1, 0xc2, 0xdf, 0xe0, 0xed, 0xef, 0xf0, 0xf4, 0xf5, 0xff]), rnd.randrange(256)]) for _ in range(n + rnd.choice([0, 0, 1, 3])))
-        b = bytes([0, n]) + body if rnd.random() < .9 else bytes([rnd.choice([0, 255]), rnd.choice([n, 255])]) + body
-        rd = rd_with(S.read_string, b, None)
-        add("RStr %s %s" % (cbs(b), cout(rd, lambda o: "(%s, %s)" % (cs(o[0]), cz(o[1])))), {"prim": "read_string", "bytes": b.hex(), "read": jd(rd)})
-        rd = rd_with(S.read_string_or_none, b, None)
-        add("RStrOpt %s %s" % (cbs(b), cout(rd, lambda o: "(%s, %s)" % (cos(o[0]), cz(o[1])))), {"prim": "read_string_or_none", "bytes": b.hex(), "read": jd(rd)})
-    for v in range(256):
-        for n in (1, 2, 3, 8):
-            rd = rd_with(lambda s: S.read_bool_array(s, n), bytes([v]), None)
-            add("RBools %s %s %s" % (cnat(n), cbs([v]), cout(rd, lambda o: "(%s, %s)" % (cbools(o[0]), cz(o[1])))), {"prim": "read_bool_array", "byte": v, "size": n, "read": jd(rd)})
-    for d in dvals[:80]:
-        rec = Recording(); S.write_dict(d, rec); data = bytearray(rec.getvalue())
-        tags = [off for off, ln in rec.chunks if ln == 1]
-        if not tags: continue
-        off = rnd.choice(tags); data[off] = rnd.choice([0, 8, 9, 10, 11, 16, 17, 18, 255])                # the value tag
-        data += bytes(8)
-        rd = rd_with(S.read_dict, bytes(data), None)
-        add("RDict %s %s" % (cbs(data), cout(rd, lambda o: "(%s, %s)" % (cdict(o[0]), cz(o[1])))), {"prim": "read_dict (tag overwritten)", "bytes": bytes(data).hex(), "read": jd(rd)})
-    # duplicate keys in a serialized dictionary: later value, first position
-    for _ in range(20):
-        k1, k2 = g_str(5), g_str(5); es = [(k1, 1), (k2, "x"), (k1, (2, 3)), (k2, -4 if rnd.random() < .5 else 4), (k1, "z")][:rnd.randint(2, 5)]
-        b = io.BytesIO(); S.write_int(len(es), b)
-        for k, v in es:
-            S.write_string(k, b)
-            if isinstance(v, int): b.write(bytes([S.DICT_INT_TYPE])); S.write_int_neg(v, b)
-            elif isinstance(v, str): b.write(bytes([S.DICT_STR_TYPE])); S.write_string(v, b)
-            else: b.write(bytes([S.DICT_INT_PAIR_TYPE])); S.write_int_neg(v[0], b); S.write_int_neg(v[1], b)
-        rd = rd_with(S.read_dict, b.getvalue(), None)
-        add("RDict %s %s" % (cbs(b.getvalue()), cout(rd, lambda o: "(%s, %s)" % (cdict(o[0]), cz(o[1])))), {"prim": "read_dict (duplicate keys)", "entries": jd(es), "read": jd(rd)})
-    # constants that the translator does not extract: framing markers and the sentinels of MatchEvent regions
-    for i, (name, model, impl) in enumerate([("GENE_MARK", "(Z.of_N GENE_MARK)", AIO.TmpFileAssignmentPrinter.GENE_INFO), ("READ_MARK", "(Z.of_N READ_MARK)", AIO.TmpFileAssignmentPrinter.READ_ASSIGNMENT),
-                                             ("TERM16", "(Z.of_N TERM16)", AIO.SHORT_TERMINATION_INT), ("TERM32", "(Z.of_N TERM32)", DP.TERMINATION_INT), ("MULT", "1048576", S.SHORT_FLOAT_MULTIPLIER),
-                                             ("NONE_STR_LEN", "65535", S.NONE_STR_LEN), ("undefined_position < 2^32", "1", int(SMC.undefined_position < (1 << 32)))]):
-        add("RConst %d%%N %s %s" % (i, model, cz(impl)), {"constant": name, "impl": impl})
-    ctx.rule("primitives: every write_*/read_* of serialization.py on boundary values (0, 2^8, 2^16, 2^31, 2^32 -+ 1, negative, |v| >= 2^31 for the sign-bit ints; strings of length 0, 255, 256, 65534, 65535, 65536, "
-             "control characters, non-ASCII of every UTF-8 length; every bool array of <= 4 flags and every byte value on reading; dictionaries with str / negative int / int-pair values) + random values; "
-             "exceptions are compared as exception classes; readers also on bytes no writer produced (invalid UTF-8, unknown dictionary tags, duplicate keys, sign bit with zero magnitude); non-trivial = all")
-    mism, viol = ctx.corr("primitives", pre_prim, cases, shard=250)
-    ctx.corr_report("primitives", mism, viol, keyfn=key_of)
+    def sec_primitives():
+        cases = []
+        def add(term, obj): cases.append((term, obj))
+        def zpair(o): return "(%s, %s)" % (o[0] if isinstance(o[0], str) else o[0], cz(o[1]))
+        def rd_with(f, data, conv):
+            s = Strict(data); r = attempt(lambda: f(s))
+            return ("ok", (r[1], len(data) - s.tell())) if r[0] == "ok" else r
+        # ints
+        ivals = sorted(set(U32_EDGE + [-1, -2, -256, 1 << 32, (1 << 32) + 1, 1 << 40, -(1 << 31), 1 << 8, (1 << 16) - 1, 1 << 16] + [rnd.randrange(0, 1 << 32) for _ in range(150)] + list(range(0, 300, 7))))
+        for w in (1, 2, 4):
+            for v in ivals:
+                if w == 2 and rnd.random() < .5: wr = attempt(lambda: (lambda b: (S.write_short_int(v, b), b.getvalue())[1])(io.BytesIO())); reader = lambda s: S.read_short_int(s)
+                elif w == 4 and rnd.random() < .5: wr = attempt(lambda: (lambda b: (S.write_int(v, b), b.getvalue())[1])(io.BytesIO())); reader = lambda s: S.read_int(s)
+                else: wr = attempt(lambda: (lambda b: (S.write_int(v, b, w), b.getvalue())[1])(io.BytesIO())); reader = lambda s: S.read_int(s, w)
+                rd = rd_with(reader, wr[1], None) if wr[0] == "ok" else ("raises", "EOFError")
+                add("PInt %s %s %s %s" % (cnat(w), cz(v), cout(wr, cbs), cout(rd, lambda o: "(%s, %s)" % (cz(o[0]), cz(o[1])))), {"prim": "write_int", "bytes_len": w, "value": v, "written": jd(wr), "read": jd(rd)})
+        nvals = sorted(set(NEG_EDGE + [1 << 31, -(1 << 31), (1 << 31) + 1, -(1 << 31) - 1, 1 << 32, -(1 << 32), (1 << 32) + 5, -((1 << 32) + 5), (1 << 33) + (1 << 31)] + [g_neg() for _ in range(300)]))
+        for v in nvals:
+            wr = attempt(lambda: (lambda b: (S.write_int_neg(v, b), b.getvalue())[1])(io.BytesIO()))
+            rd = rd_with(S.read_int_neg, wr[1], None) if wr[0] == "ok" else ("raises", "EOFError")
+            add("PNeg %s %s %s" % (cz(v), cout(wr, cbs), cout(rd, lambda o: "(%s, %s)" % (cz(o[0]), cz(o[1])))), {"prim": "write_int_neg", "value": v, "written": jd(wr), "read": jd(rd)})
+        # strings (ASCII = documented domain; non-ASCII and the length boundaries are outside: the model must still agree)
+        svals = ["", "a", "+", "NA", "A" * 255, "A" * 256, "x" * 65534, "\x00", "\x7f", "a\x00b", "é", "éa", "aé", "éé", "naïve", "中文", "\U0001F600", "a\U0001F600bc",
+                 "߿", "ࠀ", "￿", "\U00010000", "\U0010ffff", "x" * 65535, "x" * 65536] + [g_str(80) for _ in range(120 if quick else 600)]
+        svals += ["".join(chr(rnd.choice([rnd.randrange(32, 127), rnd.randrange(128, 0x800), rnd.randrange(0x800, 0xd800), rnd.randrange(0x10000, 0x110000)])) for _ in range(rnd.randint(1, 6))) for _ in range(60)]
+        for s in svals:
+            trail = bytes(rnd.choice([65, 0x80, 0xa9, 0, 255]) for _ in range(rnd.choice([0, 2, 5])))
+            wr = attempt(lambda: (lambda b: (S.write_string(s, b), b.getvalue())[1])(io.BytesIO()))
+            rd = rd_with(S.read_string, wr[1] + trail, None) if wr[0] == "ok" else ("raises", "EOFError")
+            add("PStr %s %s %s %s" % (cs(s), cbs(trail), cout(wr, cbs), cout(rd, lambda o: "(%s, %s)" % (cs(o[0]), cz(o[1])))), {"prim": "write_string", "value": s if len(s) < 200 else "%r * %d" % (s[0], len(s)), "trailing": trail.hex(), "read": jd(rd) if len(s) < 200 else rd[0]})
+        for s in [None, "", "a", "x" * 65534, "x" * 65535, "x" * 65536, "é", "éab"] + [g_ostr() for _ in range(80)]:
+            trail = bytes(rnd.choice([65, 0x80, 0]) for _ in range(rnd.choice([0, 3])))
+            wr = attempt(lambda: (lambda b: (S.write_string_or_none(s, b), b.getvalue())[1])(io.BytesIO()))
+            rd = rd_with(S.read_string_or_none, wr[1] + trail, None) if wr[0] == "ok" else ("raises", "EOFError")
+            add("PStrOpt %s %s %s %s" % (cos(s), cbs(trail), cout(wr, cbs), cout(rd, lambda o: "(%s, %s)" % (cos(o[0]), cz(o[1])))), {"prim": "write_string_or_none", "value": s if s is None or len(s) < 200 else "%r * %d" % (s[0], len(s)), "read": jd(rd) if s is None or len(s) < 200 else rd[0]})
+        # bool arrays: every array of up to 4 flags, random ones of 5..9
+        bvals = [list(t) for n in range(0, 5) for t in itertools.product([False, True], repeat=n)] + [[rnd.random() < .5 for _ in range(n)] for n in (5, 6, 7, 8, 8, 8, 9, 9, 12) for _ in range(4)] + [[True] * 8, [True] * 9]
+        for l in bvals:
+            wr = attempt(lambda: (lambda b: (S.write_bool_array(l, b), b.getvalue())[1])(io.BytesIO()))
+            rd = rd_with(lambda s: S.read_bool_array(s, len(l)), wr[1], None) if wr[0] == "ok" else ("raises", "EOFError")
+            add("PBools %s %s %s" % (cbools(l), cout(wr, cbs), cout(rd, lambda o: "(%s, %s)" % (cbools(o[0]), cz(o[1])))), {"prim": "write_bool_array", "value": l, "read": jd(rd)})
+        # lists
+        for _ in range(60 if quick else 300):
+            n = rnd.choice([0, 0, 1, 2, 5, 17])
+            for kind, gen, wf, rf, pr in (("PListInt", g_u32, S.write_int, S.read_int, czs), ("PListNeg", g_neg, S.write_int_neg, S.read_int_neg, czs), ("PListStr", g_str, S.write_string, S.read_string, lambda l: clist(l, cs))):
+                l = [gen() for _ in range(n)]
+                wr = attempt(lambda: (lambda b: (S.write_list(l, b, wf), b.getvalue())[1])(io.BytesIO()))
+                rd = rd_with(lambda s: S.read_list(s, rf), wr[1], None) if wr[0] == "ok" else ("raises", "EOFError")
+                add("%s %s %s %s" % (kind, pr(l), cout(wr, cbs), cout(rd, lambda o: "(%s, %s)" % (pr(o[0]), cz(o[1])))), {"prim": "write_list/" + kind, "value": l, "read": jd(rd)})
+            l = [(g_u32(), g_u32()) for _ in range(n)]
+            wr = attempt(lambda: (lambda b: (S.write_list_of_pairs(l, b, S.write_int), b.getvalue())[1])(io.BytesIO()))
+            rd = rd_with(lambda s: S.read_list_of_pairs(s, S.read_int), wr[1], None) if wr[0] == "ok" else ("raises", "EOFError")
+            add("PPairs %s %s %s" % (clist(l, czz), cout(wr, cbs), cout(rd, lambda o: "(%s, %s)" % (clist(o[0], czz), cz(o[1])))), {"prim": "write_list_of_pairs", "value": l, "read": jd(rd)})
+        # dictionaries: strings, ints of both signs, int pairs
+        dvals = [{}, {"a": 1}, {"a": -5}, {"k": (-1, 3)}, {"k": (0, 0)}, {"indel_count": "NA", "junctions_with_indels": "NA", "FSM_class": "3"}, {"": ""}, {"a": 0, "b": -((1 << 31) - 1), "c": (1 << 31) - 1}] + [g_dict() for _ in range(150 if quick else 800)]
+        for d in dvals:
+            trail = bytes(rnd.choice([9, 10, 17, 0]) for _ in range(rnd.choice([0, 2])))
+            wr = attempt(lambda: (lambda b: (S.write_dict(d, b), b.getvalue())[1])(io.BytesIO()))
+            rd = rd_with(S.read_dict, wr[1] + trail, None) if wr[0] == "ok" else ("raises", "EOFError")
+            o = {"prim": "write_dict", "value": jd(d), "read": jd(rd)}
+            if rd[0] == "ok" and rd[1][0] != d: o["diff"] = ["/dict/" + k for k in d if rd[1][0].get(k) != d[k]]; o["dict_sign"] = dict_sign(d, rd[1][0])
+            add("PDict %s %s %s %s" % (cdict(d), cbs(trail), cout(wr, cbs), cout(rd, lambda o: "(%s, %s)" % (cdict(o[0]), cz(o[1])))), o)
+        # readers on arbitrary bytes
+        for _ in range(200 if quick else 1500):
+            b = bytes(rnd.choice([0, 0x80, 0xff, 0x7f, rnd.randrange(256)]) for _ in range(4)); rd = rd_with(S.read_int_neg, b, None)
+            add("RNeg %s %s" % (cbs(b), cout(rd, lambda o: "(%s, %s)" % (cz(o[0]), cz(o[1])))), {"prim": "read_int_neg", "bytes": b.hex(), "read": jd(rd)})
+        for _ in range(300 if quick else 3000):
+            n = rnd.choice([0, 1, 2, 3, 4, 6]); body = bytes(rnd.choice([rnd.randrange(32, 127), rnd.randrange(0x80, 0xc0), rnd.choice([0xc0, 0xc1, 0xc2, 0xdf, 0xe0, 0xed, 0xef, 0xf0, 0xf4, 0xf5, 0xff]), rnd.randrange(256)]) for _ in range(n + rnd.choice([0, 0, 1, 3])))
+            b = bytes([0, n]) + body if rnd.random() < .9 else bytes([rnd.choice([0, 255]), rnd.choice([n, 255])]) + body
+            rd = rd_with(S.read_string, b, None)
+            add("RStr %s %s" % (cbs(b), cout(rd, lambda o: "(%s, %s)" % (cs(o[0]), cz(o[1])))), {"prim": "read_string", "bytes": b.hex(), "read": jd(rd)})
+            rd = rd_with(S.read_string_or_none, b, None)
+            add("RStrOpt %s %s" % (cbs(b), cout(rd, lambda o: "(%s, %s)" % (cos(o[0]), cz(o[1])))), {"prim": "read_string_or_none", "bytes": b.hex(), "read": jd(rd)})
+        for v in range(256):
+            for n in (1, 2, 3, 8):
+                rd = rd_with(lambda s: S.read_bool_array(s, n), bytes([v]), None)
+                add("RBools %s %s %s" % (cnat(n), cbs([v]), cout(rd, lambda o: "(%s, %s)" % (cbools(o[0]), cz(o[1])))), {"prim": "read_bool_array", "byte": v, "size": n, "read": jd(rd)})
+        for d in dvals[:80]:
+            rec = Recording(); S.write_dict(d, rec); data = bytearray(rec.getvalue())
+            tags = [off for off, ln in rec.chunks if ln == 1]
+            if not tags: continue
+            off = rnd.choice(tags); data[off] = rnd.choice([0, 8, 9, 10, 11, 16, 17, 18, 255])                # the value tag
+            data += bytes(8)
+            rd = rd_with(S.read_dict, bytes(data), None)
+            add("RDict %s %s" % (cbs(data), cout(rd, lambda o: "(%s, %s)" % (cdict(o[0]), cz(o[1])))), {"prim": "read_dict (tag overwritten)", "bytes": bytes(data).hex(), "read": jd(rd)})
+        # duplicate keys in a serialized dictionary: later value, first position
+        for _ in range(20):
+            k1, k2 = g_str(5), g_str(5); es = [(k1, 1), (k2, "x"), (k1, (2, 3)), (k2, -4 if rnd.random() < .5 else 4), (k1, "z")][:rnd.randint(2, 5)]
+            b = io.BytesIO(); S.write_int(len(es), b)
+            for k, v in es:
+                S.write_string(k, b)
+                if isinstance(v, int): b.write(bytes([S.DICT_INT_TYPE])); S.write_int_neg(v, b)
+                elif isinstance(v, str): b.write(bytes([S.DICT_STR_TYPE])); S.write_string(v, b)
+                else: b.write(bytes([S.DICT_INT_PAIR_TYPE])); S.write_int_neg(v[0], b); S.write_int_neg(v[1], b)
+            rd = rd_with(S.read_dict, b.getvalue(), None)
+            add("RDict %s %s" % (cbs(b.getvalue()), cout(rd, lambda o: "(%s, %s)" % (cdict(o[0]), cz(o[1])))), {"prim": "read_dict (duplicate keys)", "entries": jd(es), "read": jd(rd)})
+        # constants that the translator does not extract: framing markers and the sentinels of MatchEvent regions
+        for i, (name, model, impl) in enumerate([("GENE_MARK", "(Z.of_N GENE_MARK)", AIO.TmpFileAssignmentPrinter.GENE_INFO), ("READ_MARK", "(Z.of_N READ_MARK)", AIO.TmpFileAssignmentPrinter.READ_ASSIGNMENT),
+                                                 ("TERM16", "(Z.of_N TERM16)", AIO.SHORT_TERMINATION_INT), ("TERM32", "(Z.of_N TERM32)", DP.TERMINATION_INT), ("MULT", "1048576", S.SHORT_FLOAT_MULTIPLIER),
+                                                 ("NONE_STR_LEN", "65535", S.NONE_STR_LEN), ("undefined_position < 2^32", "1", int(SMC.undefined_position < (1 << 32)))]):
+            add("RConst %d%%N %s %s" % (i, model, cz(impl)), {"constant": name, "impl": impl})
+        ctx.rule("primitives: every write_*/read_* of serialization.py on boundary values (0, 2^8, 2^16, 2^31, 2^32 -+ 1, negative, |v| >= 2^31 for the sign-bit ints; strings of length 0, 255, 256, 65534, 65535, 65536, "
+                 "control characters, non-ASCII of every UTF-8 length; every bool array of <= 4 flags and every byte value on reading; dictionaries with str / negative int / int-pair values) + random values; "
+                 "exceptions are compared as exception classes; readers also on bytes no writer produced (invalid UTF-8, unknown dictionary tags, duplicate keys, sign bit with zero magnitude); non-trivial = all")
+        mism, viol = ctx.corr("primitives", pre_prim, cases, shard=250)
+        ctx.corr_report("primitives", mism, viol, keyfn=key_of)
 
     # ============================================================ 2. records
-    cases = []
-    n_ev, n_m, n_ra = (300, 300, 500) if quick else (3000, 3000, 6000)
-    pyviol = []
-    def pycheck(kind, orig, got, extra=None):
-        d = diff(orig, got)
-        if d:
-            o = {"record": kind, "diff": d, "original": jd(orig), "read_back": jd(got)}
-            if extra: o.update(extra)
-            pyviol.append(o)
-        return d
-    class Fail(Exception): pass
-    def real(what, fields, f):
-        """a real writer/reader raising on a record of the documented domain is a violation with that record as replay"""
-        try: return with_timeout(f, seconds=10.0)      # a misaligned reader may take a garbage count for a list length and loop (almost) forever
-        except ImplTimeout:
-            pyviol.append({"record": what, "diff": ["does not terminate within 10 s (reader out of step with the writer?)"], "original": jd(fields)}); raise Fail()
-        except Exception as e:
-            pyviol.append({"record": what, "diff": ["raises %s" % type(e).__name__], "error": str(e)[:300], "original": jd(fields)}); raise Fail()
-    events = [g_event() for _ in range(n_ev)]
-    events += [dict(t=t, iso=SMC.undefined_region, read=SMC.undefined_region, info=0) for t in MES]                                  # every member, default arguments
-    events += [dict(t=MES.fsm, iso=(v, v), read=(w, w), info=x) for v, w, x in zip(U32_EDGE, reversed(U32_EDGE), NEG_EDGE + NEG_EDGE)]
-    for e in events:
-        try:
-            o = mk_event(e); b = real("MatchEvent.serialize", e, lambda: ser(o)); e2 = real("MatchEvent.deserialize", e, lambda: f_event(MatchEvent.deserialize(io.BytesIO(b))))
-        except Fail: continue
-        pycheck("MatchEvent", e, e2)
-        cases.append(("CEvent %s %s %s" % (cev(e), cbs(b), cev(e2)), {"record": "MatchEvent", "fields": jd(e), "bytes": b.hex()}))
-    matches = [g_match() for _ in range(n_m)] + [dict(g_match(0), cls=c) for c in MC] + [dict(g_match(1), pen=p) for p in PEN] + \
-              [dict(g_match(0), gene=g, tr=t) for g in (None, "", "G") for t in (None, "", "T")] + [dict(g_match(1), gene="g" * 65534, tr="t" * 300)]
-    for m in matches:
-        try:
-            o = mk_match(m); b = real("IsoformMatch.serialize", m, lambda: ser(o)); m2 = real("IsoformMatch.deserialize", m, lambda: f_match(IsoformMatch.deserialize(io.BytesIO(b))))
-        except Fail: continue
-        d = pycheck("IsoformMatch", q_match(m), e_match(m2))
-        if not isinstance(m2["pen"], float): pyviol.append({"record": "IsoformMatch", "diff": ["/pen:type"], "original": jd(m)})
-        cases.append(("CMatch %s %s %s" % (cmatch(m), cbs(b), cmatch(m2)), {"record": "IsoformMatch", "fields": jd(m), "bytes": b.hex() if len(b) < 2000 else len(b), "diff": d}))
-    ras = [g_ra() for _ in range(n_ra)]
-    ras += [dict(g_ra(), type=t, gene_type=t2) for t in RAT for t2 in (RAT.unique, t)]
-    ras += [dict(g_ra(), flags=list(f)) for f in itertools.product([False, True], repeat=3)]
-    ras += [dict(g_ra(), matches=[], info={}, attrs={}, corrected=[], exon_profile=[], intron_profile=[], read_id="", group="", chr="")]
-    ras += [dict(g_ra(), read_id="r" * 65535), dict(g_ra(), matches=[dict(g_match(2), gene=None, tr=None), dict(g_match(0), gene="", tr="")])]
-    gi = mk_gene(g_gene())
-    for a in ras:
-        trail = bytes(rnd.choice([0, 255, 0xff, 65]) for _ in range(rnd.choice([0, 2, 7])))
-        try:
-            o = mk_ra(a); b = real("ReadAssignment.serialize", a, lambda: ser(o))
-            s = io.BytesIO(b + trail); o2 = real("ReadAssignment.deserialize", a, lambda: ReadAssignment.deserialize(s, gi)); a2 = f_ra(o2); frest = len(b + trail) - s.tell()
-            s = io.BytesIO(b + trail); qb = real("BasicReadAssignment.deserialize_from_read_assignment (abridged reader)", a, lambda: f_basic(BasicReadAssignment.deserialize_from_read_assignment(s))); qrest = len(b + trail) - s.tell()
-            pb = real("BasicReadAssignment(read_assignment)", a, lambda: f_basic(BasicReadAssignment(o)))
-            bb = real("BasicReadAssignment.serialize", a, lambda: ser(BasicReadAssignment(o))); pb2 = real("BasicReadAssignment.deserialize", a, lambda: f_basic(BasicReadAssignment.deserialize(io.BytesIO(bb))))
-        except Fail: continue
-        d = pycheck("ReadAssignment", q_ra(a), e_ra(a2), {"dict_sign": dict_sign(a["info"], a2["info"]) or dict_sign(a["attrs"], a2["attrs"])})
-        # what the format does not store is re-derived
-        if o2.gene_info is not gi or o2.corrected_introns != junctions_from_blocks(o2.corrected_exons) or type(o2.introns_match) is not bool or not isinstance(o2.polya_info, PolyAInfo):
-            pyviol.append({"record": "ReadAssignment", "diff": ["/derived fields (gene_info, corrected_introns, types)"], "original": jd(a)})
-        d2 = diff(q_basic(qb), q_basic(pb))
-        if d2 or frest != qrest:
-            pyviol.append({"record": "ReadAssignment: abridged reader vs BasicReadAssignment(read_assignment)", "diff": d2, "unread_full": frest, "unread_abridged": qrest, "original": jd(a)})
-        cases.append(("CRA %s %s %s %s %s %s %s %s" % (cra(a), cbs(b), cbs(trail), cra(a2), cz(frest), cbasic(qb), cz(qrest), cbasic(pb)),
-                      {"record": "ReadAssignment", "fields": jd(a), "bytes": b.hex() if len(b) < 3000 else len(b), "trailing": trail.hex(), "unread_full": frest, "unread_abridged": qrest, "diff": d,
-                       "dict_sign": dict_sign(a["info"], a2["info"]) or dict_sign(a["attrs"], a2["attrs"])}))
-        # the projection written by BasicReadAssignment.serialize (multimappers file records)
-        pycheck("BasicReadAssignment", q_basic(pb), q_basic(pb2))
-        if rnd.random() < .5: cases.append(("CBasic %s %s %s" % (cbasic(pb), cbs(bb), cbasic(pb2)), {"record": "BasicReadAssignment", "fields": jd(pb), "bytes": bb.hex() if len(bb) < 3000 else len(bb)}))
-    # BasicReadAssignment with free fields (penalties, gene lists in any order)
-    for _ in range(200 if quick else 2000):
-        x = dict(id=g_u32(), read_id=g_str(40), chr=g_str(), start=g_u32(), end=g_u32(), region=(g_u32(), g_u32()), flags=[rnd.random() < .5, rnd.random() < .5], type=nxt("rat", rat_cycle),
-                 gene_type=rnd.choice(rat_cycle), pen=g_pen(), genes=[g_str() for _ in range(rnd.choice([0, 1, 3]))], isoforms=[g_str() for _ in range(rnd.choice([0, 1, 4]))])
-        o = BasicReadAssignment.__new__(BasicReadAssignment)
-        o.assignment_id, o.read_id, o.chr_id, o.start, o.end, o.genomic_region = x["id"], x["read_id"], x["chr"], x["start"], x["end"], x["region"]
-        o.multimapper, o.polyA_found = x["flags"]; o.assignment_type, o.gene_assignment_type, o.penalty_score, o.genes, o.isoforms = x["type"], x["gene_type"], x["pen"], x["genes"], x["isoforms"]
-        try:
-            bb = real("BasicReadAssignment.serialize", x, lambda: ser(o)); x2 = real("BasicReadAssignment.deserialize", x, lambda: f_basic(BasicReadAssignment.deserialize(io.BytesIO(bb))))
-        except Fail: continue
-        pycheck("BasicReadAssignment", dict(x, pen=quant(x["pen"])), dict(x2, pen=exact(x2["pen"])))
-        cases.append(("CBasic %s %s %s" % (cbasic(x), cbs(bb), cbasic(x2)), {"record": "BasicReadAssignment", "fields": jd(x), "bytes": bb.hex()}))
-    for _ in range(100 if quick else 1000):
-        g = g_gene()
-        try:
-            b = real("GeneInfo.serialize", g, lambda: ser(mk_gene(g))); g2 = real("GeneInfo.deserialize", g, lambda: f_gene(GeneInfo.deserialize(io.BytesIO(b), FakeDB())))
-        except Fail: continue
-        pycheck("GeneInfo header", g, g2)
-        cases.append(("CGene %s %s %s" % (cgene(g), cbs(b), cgene(g2)), {"record": "GeneInfo header", "fields": jd(g), "bytes": b.hex()}))
-    ctx.rule("records: real MatchEvent / IsoformMatch / ReadAssignment / BasicReadAssignment / GeneInfo objects with random and edge-value fields (every enum member, None and empty ids, "
-             "undefined/extra region sentinels, negative event offsets, -1 polyA sentinels, empty lists, 65 535-character read id, float penalties that are not multiples of 2^-20) "
-             "serialized by the real code; each ReadAssignment is read by ReadAssignment.deserialize AND BasicReadAssignment.deserialize_from_read_assignment with trailing bytes behind it; non-trivial = all")
-    mism, viol = ctx.corr("records", pre_obj, cases, shard=120, nontrivial=None)
-    ctx.corr_report("records", mism, viol, keyfn=key_of)
-    seen = set()
-    for o in pyviol:
-        k = (o["record"], tuple(o["diff"][:3]))
-        if k in seen: continue
-        seen.add(k)
-        ctx.violation(key_of(o), "%s: the real deserialize does not return what was serialized (%s)" % (o["record"], ", ".join(o["diff"][:4])), o)
-    ctx.count(evaluations=len(events) + len(matches) + 2 * len(ras), traces=0)
+    def sec_records():
+        cases = []
+        n_ev, n_m, n_ra = (300, 300, 500) if quick else (3000, 3000, 6000)
+        pyviol = []
+        def pycheck(kind, orig, got, extra=None):
+            d = diff(orig, got)
+            if d:
+                o = {"record": kind, "diff": d, "original": jd(orig), "read_back": jd(got)}
+                if extra: o.update(extra)
+                pyviol.append(o)
+            return d
+        class Fail(Exception): pass
+        # classes of isoform_assignment.py with their own pickling codec: each must be covered below
+        custom = sorted(n for n, c in vars(IA).items() if inspect.isclass(c) and c.__module__ == IA.__name__ and not issubclass(c, enum.Enum) and any(k in vars(c) for k in ("__getstate__", "__setstate__", "__reduce__", "__reduce_ex__", "__getnewargs__")))
+        if custom != ["BasicReadAssignment"]:
+            ctx.broken("harness:pickle-codecs", "classes of src/isoform_assignment.py defining their own pickling codec: %s; only BasicReadAssignment (custom) and ReadAssignment / IsoformMatch / MatchEvent (default) are round-tripped" % custom)
+        n_pickle = [0]
+        def pickled(what, fields, obj, extract):
+            """pickle.loads(pickle.dumps(obj)) with the protocols multiprocessing may use, compared field by field with the object itself"""
+            before = extract(obj); last = None
+            for proto in (pickle.DEFAULT_PROTOCOL, pickle.HIGHEST_PROTOCOL, 2):
+                got = real("%s: pickle round trip (protocol %d)" % (what, proto), fields, lambda: extract(pickle.loads(pickle.dumps(obj, protocol=proto))))
+                pycheck("%s through pickle (__getstate__ / __setstate__)" % what, before, got, {"protocol": proto}); n_pickle[0] += 1; last = got
+            return before, last
+        def real(what, fields, f):
+            """a real writer/reader raising on a record of the documented domain is a violation with that record as replay"""
+            try: return with_timeout(f, seconds=10.0)      # a misaligned reader may take a garbage count for a list length and loop (almost) forever
+            except ImplTimeout:
+                pyviol.append({"record": what, "diff": ["does not terminate within 10 s (reader out of step with the writer?)"], "original": jd(fields)}); raise Fail()
+            except Exception as e:
+                pyviol.append({"record": what, "diff": ["raises %s" % type(e).__name__], "error": str(e)[:300], "original": jd(fields)}); raise Fail()
+        events = [g_event() for _ in range(n_ev)]
+        events += [dict(t=t, iso=SMC.undefined_region, read=SMC.undefined_region, info=0) for t in MES]                                  # every member, default arguments
+        events += [dict(t=MES.fsm, iso=(v, v), read=(w, w), info=x) for v, w, x in zip(U32_EDGE, reversed(U32_EDGE), NEG_EDGE + NEG_EDGE)]
+        for e in events:
+            try:
+                o = mk_event(e); b = real("MatchEvent.serialize", e, lambda: ser(o)); e2 = real("MatchEvent.deserialize", e, lambda: f_event(MatchEvent.deserialize(io.BytesIO(b))))
+            except Fail: continue
+            pycheck("MatchEvent", e, e2)
+            cases.append(("CEvent %s %s %s" % (cev(e), cbs(b), cev(e2)), {"record": "MatchEvent", "fields": jd(e), "bytes": b.hex()}))
+        matches = [g_match() for _ in range(n_m)] + [dict(g_match(0), cls=c) for c in MC] + [dict(g_match(1), pen=p) for p in PEN] + \
+                  [dict(g_match(0), gene=g, tr=t) for g in (None, "", "G") for t in (None, "", "T")] + [dict(g_match(1), gene="g" * 65534, tr="t" * 300)]
+        for m in matches:
+            try:
+                o = mk_match(m); b = real("IsoformMatch.serialize", m, lambda: ser(o)); m2 = real("IsoformMatch.deserialize", m, lambda: f_match(IsoformMatch.deserialize(io.BytesIO(b))))
+            except Fail: continue
+            d = pycheck("IsoformMatch", q_match(m), e_match(m2))
+            if not isinstance(m2["pen"], float): pyviol.append({"record": "IsoformMatch", "diff": ["/pen:type"], "original": jd(m)})
+            cases.append(("CMatch %s %s %s" % (cmatch(m), cbs(b), cmatch(m2)), {"record": "IsoformMatch", "fields": jd(m), "bytes": b.hex() if len(b) < 2000 else len(b), "diff": d}))
+        ras = [g_ra() for _ in range(n_ra)]
+        ras += [dict(g_ra(), type=t, gene_type=t2) for t in RAT for t2 in (RAT.unique, t)]
+        ras += [dict(g_ra(), flags=list(f)) for f in itertools.product([False, True], repeat=3)]
+        ras += [dict(g_ra(), matches=[], info={}, attrs={}, corrected=[], exon_profile=[], intron_profile=[], read_id="", group="", chr="")]
+        ras += [dict(g_ra(), read_id="r" * 65535), dict(g_ra(), matches=[dict(g_match(2), gene=None, tr=None), dict(g_match(0), gene="", tr="")])]
+        for a in ras:
+            trail = bytes(rnd.choice([0, 255, 0xff, 65]) for _ in range(rnd.choice([0, 2, 7])))
+            try:
+                o = mk_ra(a); b = real("ReadAssignment.serialize", a, lambda: ser(o))
+                s = io.BytesIO(b + trail); o2 = real("ReadAssignment.deserialize", a, lambda: ReadAssignment.deserialize(s, gi)); a2 = f_ra(o2); frest = len(b + trail) - s.tell()
+                s = io.BytesIO(b + trail); qb = real("BasicReadAssignment.deserialize_from_read_assignment (abridged reader)", a, lambda: f_basic(BasicReadAssignment.deserialize_from_read_assignment(s))); qrest = len(b + trail) - s.tell()
+                pb = real("BasicReadAssignment(read_assignment)", a, lambda: f_basic(BasicReadAssignment(o)))
+                bb = real("BasicReadAssignment.serialize", a, lambda: ser(BasicReadAssignment(o))); pb2 = real("BasicReadAssignment.deserialize", a, lambda: f_basic(BasicReadAssignment.deserialize(io.BytesIO(bb))))
+            except Fail: continue
+            d = pycheck("ReadAssignment", q_ra(a), e_ra(a2), {"dict_sign": dict_sign(a["info"], a2["info"]) or dict_sign(a["attrs"], a2["attrs"])})
+            # what the format does not store is re-derived
+            if o2.gene_info is not gi or o2.corrected_introns != junctions_from_blocks(o2.corrected_exons) or type(o2.introns_match) is not bool or not isinstance(o2.polya_info, PolyAInfo):
+                pyviol.append({"record": "ReadAssignment", "diff": ["/derived fields (gene_info, corrected_introns, types)"], "original": jd(a)})
+            d2 = diff(q_basic(qb), q_basic(pb))
+            if d2 or frest != qrest:
+                pyviol.append({"record": "ReadAssignment: abridged reader vs BasicReadAssignment(read_assignment)", "diff": d2, "unread_full": frest, "unread_abridged": qrest, "original": jd(a)})
+            cases.append(("CRA %s %s %s %s %s %s %s %s" % (cra(a), cbs(b), cbs(trail), cra(a2), cz(frest), cbasic(qb), cz(qrest), cbasic(pb)),
+                          {"record": "ReadAssignment", "fields": jd(a), "bytes": b.hex() if len(b) < 3000 else len(b), "trailing": trail.hex(), "unread_full": frest, "unread_abridged": qrest, "diff": d,
+                           "dict_sign": dict_sign(a["info"], a2["info"]) or dict_sign(a["attrs"], a2["attrs"])}))
+            # the projection written by BasicReadAssignment.serialize (multimappers file records)
+            pycheck("BasicReadAssignment", q_basic(pb), q_basic(pb2))
+            # ... and the codec that moves condensed records between processes (--high_memory with several threads); the full record has none of its own
+            try:
+                xb, xb2 = pickled("BasicReadAssignment", a, BasicReadAssignment(o), f_basic)
+                cases.append(("CPickle %s %s" % (cbasic(xb), cbasic(xb2)), {"record": "BasicReadAssignment through pickle", "fields": jd(xb), "read_back": jd(xb2)}))
+                pickled("ReadAssignment", a, o, lambda z: e_ra(f_ra(z)))
+            except Fail: pass
+            if rnd.random() < .5: cases.append(("CBasic %s %s %s" % (cbasic(pb), cbs(bb), cbasic(pb2)), {"record": "BasicReadAssignment", "fields": jd(pb), "bytes": bb.hex() if len(bb) < 3000 else len(bb)}))
+        # BasicReadAssignment with free fields (penalties, gene lists in any order)
+        for _ in range(200 if quick else 2000):
+            x = dict(id=g_u32(), read_id=g_str(40), chr=g_str(), start=g_u32(), end=g_u32(), region=(g_u32(), g_u32()), flags=[rnd.random() < .5, rnd.random() < .5], type=nxt("rat", rat_cycle),
+                     gene_type=rnd.choice(rat_cycle), pen=g_pen(), genes=[g_str() for _ in range(rnd.choice([0, 1, 3]))], isoforms=[g_str() for _ in range(rnd.choice([0, 1, 4]))])
+            o = BasicReadAssignment.__new__(BasicReadAssignment)
+            o.assignment_id, o.read_id, o.chr_id, o.start, o.end, o.genomic_region = x["id"], x["read_id"], x["chr"], x["start"], x["end"], x["region"]
+            o.multimapper, o.polyA_found = x["flags"]; o.assignment_type, o.gene_assignment_type, o.penalty_score, o.genes, o.isoforms = x["type"], x["gene_type"], x["pen"], x["genes"], x["isoforms"]
+            try:
+                bb = real("BasicReadAssignment.serialize", x, lambda: ser(o)); x2 = real("BasicReadAssignment.deserialize", x, lambda: f_basic(BasicReadAssignment.deserialize(io.BytesIO(bb))))
+            except Fail: continue
+            pycheck("BasicReadAssignment", dict(x, pen=quant(x["pen"])), dict(x2, pen=exact(x2["pen"])))
+            cases.append(("CBasic %s %s %s" % (cbasic(x), cbs(bb), cbasic(x2)), {"record": "BasicReadAssignment", "fields": jd(x), "bytes": bb.hex()}))
+            try:
+                xb, xb2 = pickled("BasicReadAssignment", x, o, f_basic)
+                cases.append(("CPickle %s %s" % (cbasic(xb), cbasic(xb2)), {"record": "BasicReadAssignment through pickle", "fields": jd(xb), "read_back": jd(xb2)}))
+            except Fail: pass
+        for _ in range(100 if quick else 1000):
+            g = g_gene()
+            try:
+                b = real("GeneInfo.serialize", g, lambda: ser(mk_gene(g))); g2 = real("GeneInfo.deserialize", g, lambda: f_gene(GeneInfo.deserialize(io.BytesIO(b), FakeDB())))
+            except Fail: continue
+            pycheck("GeneInfo header", g, g2)
+            cases.append(("CGene %s %s %s" % (cgene(g), cbs(b), cgene(g2)), {"record": "GeneInfo header", "fields": jd(g), "bytes": b.hex()}))
+        ctx.rule("records: real MatchEvent / IsoformMatch / ReadAssignment / BasicReadAssignment / GeneInfo objects with random and edge-value fields (every enum member, None and empty ids, "
+                 "undefined/extra region sentinels, negative event offsets, -1 polyA sentinels, empty lists, 65 535-character read id, float penalties that are not multiples of 2^-20) "
+                 "serialized by the real code; each ReadAssignment is read by ReadAssignment.deserialize AND BasicReadAssignment.deserialize_from_read_assignment with trailing bytes behind it; "
+                 "pickle.loads(pickle.dumps(x)) of every BasicReadAssignment (its __getstate__ / __setstate__ codec, used between processes with --high_memory) and of every ReadAssignment (default pickling), protocols default / highest / 2, "
+                 "field by field, types included; non-trivial = all")
+        mism, viol = ctx.corr("records", pre_obj, cases, shard=120, nontrivial=None)
+        ctx.corr_report("records", mism, viol, keyfn=key_of)
+        seen = set()
+        for o in pyviol:
+            k = (o["record"], tuple(o["diff"][:3]))
+            if k in seen: continue
+            seen.add(k)
+            ctx.violation(key_of(o), "%s: the real deserialize does not return what was serialized (%s)" % (o["record"], ", ".join(o["diff"][:4])), o)
+        ctx.count(evaluations=len(events) + len(matches) + 2 * len(ras) + n_pickle[0], traces=0)
+        ctx.notes.append("pickle round trips: %d (BasicReadAssignment and ReadAssignment objects x 3 protocols)" % n_pickle[0])
 
     # ============================================================ 3. corrupted and out-of-domain records: the readers' error handling
-    cases = []
-    def rdo(f, data, fields):
-        s = Strict(data); r = attempt(lambda: f(s))
-        return ("ok", (fields(r[1]), len(data) - s.tell())) if r[0] == "ok" else r
-    def pr_rd(rd, pr): return cout(rd, lambda o: "(%s, %s)" % (pr(o[0]), cz(o[1])))
-    def mutate(data, chunks):
-        """overwrite one primitive field (boundaries recorded from the real writer) with another value of the same width"""
-        data = bytearray(data); off, ln = rnd.choice(chunks)
-        if ln == 1: data[off] = rnd.choice([0, 1, 7, 8, 9, 10, 11, 17, 128, 255])
-        elif ln == 2: data[off:off + 2] = rnd.choice([0, 1, 2, 3, 7, 33, 255, 256, 65280, 65535, rnd.randrange(65536)]).to_bytes(2, "big")
-        elif ln == 4: data[off:off + 4] = rnd.choice([0, 1, 2, 3, 1 << 31, (1 << 31) + 1, (1 << 32) - 1, rnd.randrange(1 << 32)]).to_bytes(4, "big")
-        else:
-            k = off + rnd.randrange(ln); data[k] = rnd.choice([0, 0x80, 0xc3, 0xff, 65, rnd.randrange(256)])
-        return bytes(data)
-    n_x = 400 if quick else 4000
-    for i in range(n_x):
-        a = g_ra(allow_empty=True); o = mk_ra(a); rec = Recording()
-        try: b = ser(o, rec)
-        except Exception: continue
-        data = b if (i % 5 == 0 and not a["exons"]) else mutate(b, rec.chunks)
-        data += bytes(rnd.choice([0, 0, 255]) for _ in range(rnd.choice([0, 4, 16])))
-        rd = rdo(lambda s: ReadAssignment.deserialize(s, gi), data, f_ra); rq = rdo(BasicReadAssignment.deserialize_from_read_assignment, data, f_basic)
-        cases.append(("XRA %s %s %s" % (cbs(data), pr_rd(rd, cra), pr_rd(rq, cbasic)), {"record": "ReadAssignment (one field overwritten)", "bytes": data.hex(), "full": rd[0] if rd[0] == "ok" else rd, "abridged": rq[0] if rq[0] == "ok" else rq}))
-    for a in [dict(g_ra(), exons=[]) for _ in range(10)]:                                           # empty exon list: the abridged reader raises IndexError
-        try: data = ser(mk_ra(a))
-        except Exception: continue
-        rd = rdo(lambda s: ReadAssignment.deserialize(s, gi), data, f_ra); rq = rdo(BasicReadAssignment.deserialize_from_read_assignment, data, f_basic)
-        cases.append(("XRA %s %s %s" % (cbs(data), pr_rd(rd, cra), pr_rd(rq, cbasic)), {"record": "ReadAssignment with an empty exon list", "bytes": data.hex(), "full": rd[0], "abridged": rq}))
-    for i in range(n_x // 2):
-        m = g_match(); rec = Recording(); e = g_event(); rec2 = Recording()
-        try: b = ser(mk_match(m), rec); b2 = ser(mk_event(e), rec2)
-        except Exception: continue
-        data = mutate(b, rec.chunks) + bytes(8)
-        rd = rdo(IsoformMatch.deserialize, data, f_match)
-        cases.append(("XMatch %s %s" % (cbs(data), pr_rd(rd, cmatch)), {"record": "IsoformMatch (one field overwritten)", "bytes": data.hex(), "read": rd[0] if rd[0] == "ok" else rd}))
-        data = mutate(b2, rec2.chunks) + bytes(4)
-        rd = rdo(MatchEvent.deserialize, data, f_event)
-        cases.append(("XEvent %s %s" % (cbs(data), pr_rd(rd, cev)), {"record": "MatchEvent (one field overwritten)", "bytes": data.hex(), "read": rd[0] if rd[0] == "ok" else rd}))
-    for v in list(range(0, 400)) + [1003, 1005, 1011, 1012, 1013, 1014, 1015, 65535]:               # every 2-byte value near the enum ranges as event type
-        data = v.to_bytes(2, "big") + bytes(20); rd = rdo(MatchEvent.deserialize, data, f_event)
-        cases.append(("XEvent %s %s" % (cbs(data), pr_rd(rd, cev)), {"record": "MatchEvent with event type value %d" % v, "read": rd[0] if rd[0] == "ok" else rd}))
-    ctx.rule("corrupted records: one primitive field of a real serialization (field boundaries recorded from the real writer) overwritten with boundary values (non-member enum values, unknown dictionary tags, "
-             "invalid UTF-8, other list lengths); the real full and abridged readers run on a stream that raises on short reads; model None <-> exception; non-trivial = the real reader raised")
-    mism, viol = ctx.corr("corrupted_records", pre_obj, cases, shard=120, nontrivial=lambda o: "raises" in str(o.get("full", "")) + str(o.get("abridged", "")) + str(o.get("read", "")))
-    ctx.corr_report("corrupted_records", mism, viol)
+    def sec_corrupted():
+        cases = []
+        def rdo(f, data, fields):
+            s = Strict(data); r = attempt(lambda: f(s))
+            return ("ok", (fields(r[1]), len(data) - s.tell())) if r[0] == "ok" else r
+        def pr_rd(rd, pr): return cout(rd, lambda o: "(%s, %s)" % (pr(o[0]), cz(o[1])))
+        def mutate(data, chunks):
+            """overwrite one primitive field (boundaries recorded from the real writer) with another value of the same width"""
+            data = bytearray(data); off, ln = rnd.choice(chunks)
+            if ln == 1: data[off] = rnd.choice([0, 1, 7, 8, 9, 10, 11, 17, 128, 255])
+            elif ln == 2: data[off:off + 2] = rnd.choice([0, 1, 2, 3, 7, 33, 255, 256, 65280, 65535, rnd.randrange(65536)]).to_bytes(2, "big")
+            elif ln == 4: data[off:off + 4] = rnd.choice([0, 1, 2, 3, 1 << 31, (1 << 31) + 1, (1 << 32) - 1, rnd.randrange(1 << 32)]).to_bytes(4, "big")
+            else:
+                k = off + rnd.randrange(ln); data[k] = rnd.choice([0, 0x80, 0xc3, 0xff, 65, rnd.randrange(256)])
+            return bytes(data)
+        n_x = 400 if quick else 4000
+        for i in range(n_x):
+            a = g_ra(allow_empty=True); o = mk_ra(a); rec = Recording()
+            try: b = ser(o, rec)
+            except Exception: continue
+            data = b if (i % 5 == 0 and not a["exons"]) else mutate(b, rec.chunks)
+            data += bytes(rnd.choice([0, 0, 255]) for _ in range(rnd.choice([0, 4, 16])))
+            rd = rdo(lambda s: ReadAssignment.deserialize(s, gi), data, f_ra); rq = rdo(BasicReadAssignment.deserialize_from_read_assignment, data, f_basic)
+            cases.append(("XRA %s %s %s" % (cbs(data), pr_rd(rd, cra), pr_rd(rq, cbasic)), {"record": "ReadAssignment (one field overwritten)", "bytes": data.hex(), "full": rd[0] if rd[0] == "ok" else rd, "abridged": rq[0] if rq[0] == "ok" else rq}))
+        for a in [dict(g_ra(), exons=[]) for _ in range(10)]:                                           # empty exon list: the abridged reader raises IndexError
+            try: data = ser(mk_ra(a))
+            except Exception: continue
+            rd = rdo(lambda s: ReadAssignment.deserialize(s, gi), data, f_ra); rq = rdo(BasicReadAssignment.deserialize_from_read_assignment, data, f_basic)
+            cases.append(("XRA %s %s %s" % (cbs(data), pr_rd(rd, cra), pr_rd(rq, cbasic)), {"record": "ReadAssignment with an empty exon list", "bytes": data.hex(), "full": rd[0], "abridged": rq}))
+        for i in range(n_x // 2):
+            m = g_match(); rec = Recording(); e = g_event(); rec2 = Recording()
+            try: b = ser(mk_match(m), rec); b2 = ser(mk_event(e), rec2)
+            except Exception: continue
+            data = mutate(b, rec.chunks) + bytes(8)
+            rd = rdo(IsoformMatch.deserialize, data, f_match)
+            cases.append(("XMatch %s %s" % (cbs(data), pr_rd(rd, cmatch)), {"record": "IsoformMatch (one field overwritten)", "bytes": data.hex(), "read": rd[0] if rd[0] == "ok" else rd}))
+            data = mutate(b2, rec2.chunks) + bytes(4)
+            rd = rdo(MatchEvent.deserialize, data, f_event)
+            cases.append(("XEvent %s %s" % (cbs(data), pr_rd(rd, cev)), {"record": "MatchEvent (one field overwritten)", "bytes": data.hex(), "read": rd[0] if rd[0] == "ok" else rd}))
+        for v in list(range(0, 400)) + [1003, 1005, 1011, 1012, 1013, 1014, 1015, 65535]:               # every 2-byte value near the enum ranges as event type
+            data = v.to_bytes(2, "big") + bytes(20); rd = rdo(MatchEvent.deserialize, data, f_event)
+            cases.append(("XEvent %s %s" % (cbs(data), pr_rd(rd, cev)), {"record": "MatchEvent with event type value %d" % v, "read": rd[0] if rd[0] == "ok" else rd}))
+        ctx.rule("corrupted records: one primitive field of a real serialization (field boundaries recorded from the real writer) overwritten with boundary values (non-member enum values, unknown dictionary tags, "
+                 "invalid UTF-8, other list lengths); the real full and abridged readers run on a stream that raises on short reads; model None <-> exception; non-trivial = the real reader raised")
+        mism, viol = ctx.corr("corrupted_records", pre_obj, cases, shard=120, nontrivial=lambda o: "raises" in str(o.get("full", "")) + str(o.get("abridged", "")) + str(o.get("read", "")))
+        ctx.corr_report("corrupted_records", mism, viol)
 
     # ============================================================ 4. streams: the real printer and the two real loaders
-    cases = []
-    tmpd = tempfile.mkdtemp(prefix="c15_streams_")
-    try:
-        n_s = 40 if quick else 300
-        for i in range(n_s):
-            gs = [(g_gene(), [g_ra() for _ in range(rnd.choice([0, 0, 1, 2, 5]))]) for _ in range(rnd.choice([0, 1, 1, 2, 4]))]
-            path = os.path.join(tmpd, "s%d.save_chr" % i)
-            try:
-                stage = "TmpFileAssignmentPrinter"
-                pr = AIO.TmpFileAssignmentPrinter(path, None)
-                for g, rs in gs:
-                    pr.add_gene_info(mk_gene(g))
-                    for a in rs: pr.add_read_info(mk_ra(a))
-                del pr; gc.collect()
-                data = open(path, "rb").read()
-                stage = "ReadAssignmentLoader / NormalTmpFileAssignmentLoader"
-                full = []; ld = DP.ReadAssignmentLoader(path, FakeDB(), None, None); guard = 0
-                while ld.has_next():
-                    g, st = ld.get_next(); full.append((f_gene(g), [f_ra(a) for a in st])); guard += 1
-                    if guard > len(data): raise RuntimeError("loader does not advance")
-                fend = ld.unpickler.loader.tell()
-                stage = "BasicReadAssignmentLoader / QuickTmpFileAssignmentLoader"
-                qk = []; lq = DP.BasicReadAssignmentLoader(path); guard = 0
-                while lq.has_next():
-                    qk.append([f_basic(a) for a in lq.get_next() if a is not None]); guard += 1
-                    if guard > len(data): raise RuntimeError("loader does not advance")
-                qend = lq.unpickler.loader.tell()
-            except Exception as e:
-                ctx.violation(None, "save stream: %s raises %s on a stream of records of the documented domain" % (stage, type(e).__name__), {"groups": jd(gs), "error": str(e)[:300]}); continue
-            d = diff([(g, [q_ra(a) for a in rs]) for g, rs in gs], [(g, [e_ra(a) for a in rs]) for g, rs in full])
-            if d: ctx.violation(key_of({"diff": d, "dict_sign": any(dict_sign(a["info"], a2["info"]) or dict_sign(a["attrs"], a2["attrs"]) for (g, rs), (g2, rs2) in zip(gs, full) for a, a2 in zip(rs, rs2))}),
-                                 "save stream: NormalTmpFileAssignmentLoader does not return what TmpFileAssignmentPrinter wrote", {"groups": jd(gs), "diff": d[:10]})
-            cgs = lambda x: clist(x, lambda g: "(%s, %s)" % (cgene(g[0]), clist(g[1], cra)))
-            cases.append(("CStream %s %s %s %s %s %s" % (cgs(gs), cbs(data), cgs(full), clist(qk, lambda l: clist(l, cbasic)), cz(fend), cz(qend)),
-                          {"stream": jd(gs), "size": len(data), "full_loader_end": fend, "abridged_loader_end": qend}))
-            del ld, lq; gc.collect()
-        # multimappers files: real resolve_multimappers (resolver stubbed to the identity) writes, the real loop of construct_models_in_parallel reads
-        mm_reader = extract_block(DP, "construct_models_in_parallel", "multimapped_reads", ast.While, "dump_filename, chr_id", "multimapped_reads")
-        info_writer = extract_block(DP, "collect_reads", "info_dumper", "info_dumper.close", "info_file, total_assignments, polya_assignments, all_read_groups", "None")
-        class IdResolver:
-            def __init__(self, strategy): pass
-            def resolve(self, l): return l
-        real_resolver = DP.MultimapResolver; DP.MultimapResolver = IdResolver
+    def sec_streams():
+        cases = []
+        tmpd = tempfile.mkdtemp(prefix="c15_streams_")
         try:
-            for i in range(25 if quick else 200):
-                chrs = ["chr1", "chr2", "c3"][:rnd.randint(1, 3)]
-                reads = {}
-                for r in range(rnd.choice([0, 1, 3, 6])):
-                    rid = "read%d" % r; lst = []
-                    for _ in range(rnd.choice([1, 2, 2, 3, 5])):
-                        a = dict(g_ra(), read_id=rid, chr=rnd.choice(chrs)); lst.append(BasicReadAssignment(mk_ra(a)))
-                    reads[rid] = lst
-                sample = types.SimpleNamespace(out_raw_file=os.path.join(tmpd, "m%d.save" % i))
-                fake_self = types.SimpleNamespace(args=types.SimpleNamespace(multimap_strategy=None))
-                DP.DatasetProcessor.resolve_multimappers(fake_self, chrs, sample, reads)
-                for c in chrs:
-                    data = open(sample.out_raw_file + "_multimappers_" + c, "rb").read()
-                    exp = []
-                    for rid, lst in reads.items():
-                        if len(lst) > 1 and any(x.chr_id == c for x in lst): exp.append([f_basic(x) for x in lst if x.chr_id == c])
-                    loaded = mm_reader(sample.out_raw_file, c)
-                    cases.append(("CMM %s %s %s %s" % (cs(c), clist(exp, lambda l: clist(l, cbasic)), cbs(data), clist(list(loaded.items()), lambda kv: "(%s, %s)" % (cs(kv[0]), clist([f_basic(x) for x in kv[1]], cbasic)))),
-                                  {"multimappers_file": c, "lists": jd(exp), "size": len(data)}))
+            n_s = 40 if quick else 300
+            for i in range(n_s):
+                gs = [(g_gene(), [g_ra() for _ in range(rnd.choice([0, 0, 1, 2, 5]))]) for _ in range(rnd.choice([0, 1, 1, 2, 4]))]
+                path = os.path.join(tmpd, "s%d.save_chr" % i)
+                try:
+                    stage = "TmpFileAssignmentPrinter"
+                    pr = AIO.TmpFileAssignmentPrinter(path, None)
+                    for g, rs in gs:
+                        pr.add_gene_info(mk_gene(g))
+                        for a in rs: pr.add_read_info(mk_ra(a))
+                    del pr; gc.collect()
+                    data = open(path, "rb").read()
+                    stage = "ReadAssignmentLoader / NormalTmpFileAssignmentLoader"
+                    full = []; ld = DP.ReadAssignmentLoader(path, FakeDB(), None, None); guard = 0
+                    while ld.has_next():
+                        g, st = ld.get_next(); full.append((f_gene(g), [f_ra(a) for a in st])); guard += 1
+                        if guard > len(data): raise RuntimeError("loader does not advance")
+                    fend = ld.unpickler.loader.tell()
+                    stage = "BasicReadAssignmentLoader / QuickTmpFileAssignmentLoader"
+                    qk = []; lq = DP.BasicReadAssignmentLoader(path); guard = 0
+                    while lq.has_next():
+                        qk.append([f_basic(a) for a in lq.get_next() if a is not None]); guard += 1
+                        if guard > len(data): raise RuntimeError("loader does not advance")
+                    qend = lq.unpickler.loader.tell()
+                except Exception as e:
+                    ctx.violation(None, "save stream: %s raises %s on a stream of records of the documented domain" % (stage, type(e).__name__), {"groups": jd(gs), "error": str(e)[:300]}); continue
+                d = diff([(g, [q_ra(a) for a in rs]) for g, rs in gs], [(g, [e_ra(a) for a in rs]) for g, rs in full])
+                if d: ctx.violation(key_of({"diff": d, "dict_sign": any(dict_sign(a["info"], a2["info"]) or dict_sign(a["attrs"], a2["attrs"]) for (g, rs), (g2, rs2) in zip(gs, full) for a, a2 in zip(rs, rs2))}),
+                                     "save stream: NormalTmpFileAssignmentLoader does not return what TmpFileAssignmentPrinter wrote", {"groups": jd(gs), "diff": d[:10]})
+                cgs = lambda x: clist(x, lambda g: "(%s, %s)" % (cgene(g[0]), clist(g[1], cra)))
+                cases.append(("CStream %s %s %s %s %s %s" % (cgs(gs), cbs(data), cgs(full), clist(qk, lambda l: clist(l, cbasic)), cz(fend), cz(qend)),
+                              {"stream": jd(gs), "size": len(data), "full_loader_end": fend, "abridged_loader_end": qend}))
+                del ld, lq; gc.collect()
+            # multimappers files: real resolve_multimappers (resolver stubbed to the identity) writes, the real loop of construct_models_in_parallel reads
+            class IdResolver:
+                def __init__(self, strategy): pass
+                def resolve(self, l): return l
+            real_resolver = DP.MultimapResolver; DP.MultimapResolver = IdResolver
+            try:
+                for i in range((25 if quick else 200) if mm_reader is not None else 0):
+                    chrs = ["chr1", "chr2", "c3"][:rnd.randint(1, 3)]
+                    reads = {}
+                    for r in range(rnd.choice([0, 1, 3, 6])):
+                        rid = "read%d" % r; lst = []
+                        for _ in range(rnd.choice([1, 2, 2, 3, 5])):
+                            a = dict(g_ra(), read_id=rid, chr=rnd.choice(chrs)); lst.append(BasicReadAssignment(mk_ra(a)))
+                        reads[rid] = lst
+                    sample = types.SimpleNamespace(out_raw_file=os.path.join(tmpd, "m%d.save" % i))
+                    fake_self = types.SimpleNamespace(args=types.SimpleNamespace(multimap_strategy=None))
+                    rp = {"chromosomes": chrs, "reads": {rid: [jd(f_basic(x)) for x in lst] for rid, lst in reads.items()}}
+                    try: with_timeout(DP.DatasetProcessor.resolve_multimappers, fake_self, chrs, sample, reads, seconds=20.0)
+                    except (Exception, ImplTimeout) as e:
+                        ctx.violation(None, "multimappers files: resolve_multimappers raises %s on records of the documented domain" % type(e).__name__, dict(rp, error=str(e)[:300])); continue
+                    for c in chrs:
+                        exp = []
+                        for rid, lst in reads.items():
+                            if len(lst) > 1 and any(x.chr_id == c for x in lst): exp.append([f_basic(x) for x in lst if x.chr_id == c])
+                        try:
+                            data = open(sample.out_raw_file + "_multimappers_" + c, "rb").read()
+                            loaded = with_timeout(mm_reader, sample.out_raw_file, c, seconds=20.0)
+                        except (Exception, ImplTimeout) as e:
+                            ctx.violation(None, "multimappers files: the reading loop of construct_models_in_parallel raises %s on a file written by resolve_multimappers" % type(e).__name__, dict(rp, chromosome=c, error=str(e)[:300])); continue
+                        cases.append(("CMM %s %s %s %s" % (cs(c), clist(exp, lambda l: clist(l, cbasic)), cbs(data), clist(list(loaded.items()), lambda kv: "(%s, %s)" % (cs(kv[0]), clist([f_basic(x) for x in kv[1]], cbasic)))),
+                                      {"multimappers_file": c, "lists": jd(exp), "size": len(data)}))
+            finally:
+                DP.MultimapResolver = real_resolver
+            for i in range((20 if quick else 200) if info_writer is not None else 0):
+                tot = g_u32(); pa = g_u32(); groups = set(g_str() for _ in range(rnd.choice([0, 1, 3, 10])))
+                p = os.path.join(tmpd, "i%d.save" % i)
+                try:
+                    with_timeout(info_writer, p + "_info", tot, pa, groups)
+                    data = open(p + "_info", "rb").read()
+                    t2, p2, g2 = with_timeout(DP.DatasetProcessor.load_read_info, None, p)
+                    order = S.read_list(io.BytesIO(data[8:]), S.read_string)
+                except (Exception, ImplTimeout) as e:
+                    ctx.violation(None, "save_info file: writing / load_read_info raises %s" % type(e).__name__, {"written": [tot, pa, sorted(groups)], "error": str(e)[:300]}); continue
+                cases.append(("CInfo (%s, (%s, %s)) %s (%s, (%s, %s))" % (cz(tot), cz(pa), clist(order, cs), cbs(data), cz(t2), cz(p2), clist(sorted(g2), cs)), {"info_file": [tot, pa, sorted(groups)], "bytes": data.hex()}))
+                if (t2, p2, g2) != (tot, pa, groups): ctx.violation(None, "save_info file: load_read_info does not return what was written", {"written": [tot, pa, sorted(groups)], "read": [t2, p2, sorted(g2)]})
         finally:
-            DP.MultimapResolver = real_resolver
-        for i in range(20 if quick else 200):
-            tot = g_u32(); pa = g_u32(); groups = set(g_str() for _ in range(rnd.choice([0, 1, 3, 10])))
-            p = os.path.join(tmpd, "i%d.save" % i)
-            info_writer(p + "_info", tot, pa, groups)
-            data = open(p + "_info", "rb").read()
-            t2, p2, g2 = DP.DatasetProcessor.load_read_info(None, p)
-            order = S.read_list(io.BytesIO(data[8:]), S.read_string)
-            cases.append(("CInfo (%s, (%s, %s)) %s (%s, (%s, %s))" % (cz(tot), cz(pa), clist(order, cs), cbs(data), cz(t2), cz(p2), clist(sorted(g2), cs)), {"info_file": [tot, pa, sorted(groups)], "bytes": data.hex()}))
-            if (t2, p2, g2) != (tot, pa, groups): ctx.violation(None, "save_info file: load_read_info does not return what was written", {"written": [tot, pa, sorted(groups)], "read": [t2, p2, sorted(g2)]})
-    finally:
-        shutil.rmtree(tmpd, ignore_errors=True)
-    ctx.rule("streams: random sequences of (gene header, read assignments) written by the real TmpFileAssignmentPrinter and read by the real ReadAssignmentLoader/NormalTmpFileAssignmentLoader and "
-             "BasicReadAssignmentLoader/QuickTmpFileAssignmentLoader (end offsets compared); multimappers files written by the real resolve_multimappers and read by the loop of construct_models_in_parallel "
-             "(executed from its source text); save_info files; non-trivial = all")
-    mism, viol = ctx.corr("streams", pre_obj, cases, shard=8)
-    ctx.corr_report("streams", mism, viol, keyfn=key_of)
+            shutil.rmtree(tmpd, ignore_errors=True)
+        ctx.rule("streams: random sequences of (gene header, read assignments) written by the real TmpFileAssignmentPrinter and read by the real ReadAssignmentLoader/NormalTmpFileAssignmentLoader and "
+                 "BasicReadAssignmentLoader/QuickTmpFileAssignmentLoader (end offsets compared); multimappers files written by the real resolve_multimappers and read by the loop of construct_models_in_parallel "
+                 "(executed from its source text); save_info files; non-trivial = all")
+        mism, viol = ctx.corr("streams", pre_obj, cases, shard=8)
+        ctx.corr_report("streams", mism, viol, keyfn=key_of)
 
+    guarded("primitives", sec_primitives)
+    guarded("records", sec_records)
+    guarded("corrupted_records", sec_corrupted)
+    guarded("streams", sec_streams)
     # ============================================================ 5. pipeline: files of a real run, reuse with --read_assignments
-    pipeline_part(ctx, pre_obj, DP, AIO, S, f_gene, f_ra, f_basic, cgene, cra, cbasic, FakeDB, mm_reader, quick)
+    guarded("pipeline", pipeline_part, ctx, pre_obj, DP, AIO, S, f_gene, f_ra, f_basic, cgene, cra, cbasic, FakeDB, mm_reader, quick)
     ctx.assume.append("short reads: the harness stream raises on a read past the end of the data, the model decoders return None there; the real readers on real files return 0 / shorter strings silently (truncated files are outside the property)")
     ctx.assume.append("Python floats: penalty_score * 2^20 and k / 2^20 are exact in binary floating point (k < 2^32), so the fixed-point model over Q applies; values are passed to Coq as exact fractions")
     ctx.assume.append("GeneInfo: only the serialized header is modelled; the re-derivation from the annotation database is covered by the pipeline comparison only")
@@ -774,27 +830,50 @@ def pipeline_part(ctx, pre_obj, DP, AIO, S, f_gene, f_ra, f_basic, cgene, cra, c
             if bad: ctx.violation(None, "a run restarted from saved assignments does not reproduce the outputs of the run that saved them (%s)" % tag, {"arguments": args, "differences": bad[:10]})
             return len(f1)
         runs = [("no grouping", []), ("grouping by read id", ["--read_group", "read_id:_"])] + ([] if quick else [("count_exons + sqanti", ["--count_exons", "--sqanti_output"])])
-        first_save = None
+        first_save = None; first_saved_files = None
         for tag, extra in runs:
             o1 = os.path.join(d, "run1_" + str(len(tag))); o2 = os.path.join(d, "run2_" + str(len(tag)))
             rc1, log1 = P.run_isoquant(o1, base + ["--bam", inp["bam"], "-p", "S", "--keep_tmp"] + extra); ctx.cov["pipeline_runs"] += 1
             if rc1 != 0: ctx.broken("pipeline", "the saving run failed (%s): %s" % (tag, log1[-800:])); continue
             save = os.path.join(o1, "S", "aux", "S.save"); first_save = first_save or save
+            saved_files = sorted(os.path.basename(x) for x in glob.glob(save + "_*"))
+            if first_saved_files is None: first_saved_files = saved_files
             a2 = base + ["--read_assignments", save] + extra
             rc2, log2 = P.run_isoquant(o2, a2); ctx.cov["pipeline_runs"] += 1
             if rc2 != 0:
                 ctx.violation(None, "a run restarted with --read_assignments fails (%s)" % tag, {"arguments": a2, "exit": rc2, "log_tail": log2[-1500:]}); continue
-            pre2 = [x for x in os.listdir(o2) if os.path.isdir(os.path.join(o2, x)) and os.path.isdir(os.path.join(o2, x, "aux"))]
-            n = compare(tag, o1, "S", o2, pre2[0], a2)
+            def prefix_of(o): return [x for x in os.listdir(o) if os.path.isdir(os.path.join(o, x)) and os.path.isdir(os.path.join(o, x, "aux"))][0]
+            n = compare(tag, o1, "S", o2, prefix_of(o2), a2)
             ctx.notes.append("reuse (%s): %d output files identical up to '# ' header lines" % (tag, n))
+            # three-step history: the saved assignments serve a SECOND restart as well (a restart must leave what it was given in place)
+            saved_before = sorted(os.path.basename(x) for x in glob.glob(save + "_*"))
+            o2b = o2 + "_again"
+            rc2b, log2b = P.run_isoquant(o2b, a2); ctx.cov["pipeline_runs"] += 1
+            saved_after = sorted(os.path.basename(x) for x in glob.glob(save + "_*"))
+            history = ["run with --keep_tmp", "restart with --read_assignments (reproduced the outputs)", "second restart with the same arguments"]
+            if rc2b != 0:
+                ctx.violation(None, "the saved assignments cannot be reused a second time: the second run restarted with --read_assignments from the same saved files fails (%s)" % tag,
+                              {"history": history, "arguments": a2, "exit": rc2b, "saved_files_after_the_saving_run": saved_files, "saved_files_after_the_first_restart": saved_before, "log_tail": log2b[-1500:]}); continue
+            n = compare(tag + ", second restart", o1, "S", o2b, prefix_of(o2b), a2)
+            if saved_after != saved_files:
+                ctx.violation(None, "a run restarted with --read_assignments removes or adds files of the saved assignments it was given (%s)" % tag,
+                              {"history": history, "arguments": a2, "saved_files_after_the_saving_run": saved_files, "saved_files_after_the_restarts": saved_after})
+            ctx.notes.append("second reuse (%s): %d output files identical; %d saved files untouched" % (tag, n, len(saved_after)))
         # known finding #19: --read_assignments together with --read_group file:...
         if first_save:
             o3 = os.path.join(d, "run3"); a3 = base + ["--read_assignments", first_save, "--read_group", "file:%s" % inp["groups"]]
             rc3, log3 = P.run_isoquant(o3, a3); ctx.cov["pipeline_runs"] += 1
             if rc3 != 0:
-                structural = "--read_assignments" in a3 and any(x.startswith("file:") for x in a3) and "split_read_group_table" in log3 and "pysam.AlignmentFile" in log3 and first_save in log3.split("split_read_group_table")[-1]
-                ctx.violation("C15:reuse-with-group-file" if structural else None, "--read_assignments together with --read_group file:<table> aborts: prepare_read_groups opens the save prefix as a BAM file",
-                              {"arguments": a3, "exit": rc3, "log_tail": log3[-1200:]})
+                # the known finding is matched by its structure only: the saved files are all still there AND the traceback is the one of prepare_read_groups
+                # opening the save prefix as a BAM file; any other failure of this run is a new violation under its own description
+                saved_now = sorted(os.path.basename(x) for x in glob.glob(first_save + "_*"))
+                structural = "--read_assignments" in a3 and any(x.startswith("file:") for x in a3) and "split_read_group_table" in log3 and "pysam.AlignmentFile" in log3 and first_save in log3.split("split_read_group_table")[-1] \
+                             and len(saved_now) > 0 and saved_now == first_saved_files
+                if structural:
+                    ctx.violation("C15:reuse-with-group-file", "--read_assignments together with --read_group file:<table> aborts: prepare_read_groups opens the save prefix as a BAM file", {"arguments": a3, "exit": rc3, "log_tail": log3[-1200:]})
+                else:
+                    ctx.violation(None, "a run restarted with --read_assignments (and --read_group file:<table>) fails, and not in the way of the known finding C15:reuse-with-group-file (saved files still present: %d of %d)" % (len(saved_now), len(first_saved_files)),
+                                  {"arguments": a3, "exit": rc3, "saved_files_after_the_saving_run": first_saved_files, "saved_files_now": saved_now, "log_tail": log3[-1200:]})
             else:
                 ctx.notes.append("--read_assignments with --read_group file: completed (finding #19 not reproduced)")
         # the files of the real run against the model
@@ -824,8 +903,8 @@ def pipeline_part(ctx, pre_obj, DP, AIO, S, f_gene, f_ra, f_basic, cgene, cra, c
                 cases.append(("(let f := %s in CStream f %s f %s %s %s)" % (cgs(full), cbs(data), clist(qk, lambda l: clist(l, cbasic)), cz(fend), cz(qend)),
                               {"file": os.path.basename(path), "size": len(data), "groups": len(full), "assignments": sum(len(x[1]) for x in full)}))
                 del ld, lq; gc.collect()
-            ctx.rule("pipeline: IsoQuant on the bundled data with --keep_tmp, then with --read_assignments <aux>/S.save (without grouping and with --read_group read_id:_): every output file compared byte for byte "
-                     "except '# ' header lines; the <save>_chr* and <save>_multimappers_* files of the real run are decoded by the model, re-encoded to the same bytes and compared with what both real loaders return")
+            ctx.rule("pipeline: three-step histories on the bundled data - IsoQuant with --keep_tmp, then with --read_assignments <aux>/S.save, then once more with --read_assignments on the same saved files "
+                     "(without grouping and with --read_group read_id:_): every output file of both restarts compared byte for byte with the saving run except '# ' header lines, the set of saved files must be unchanged; the <save>_chr* and <save>_multimappers_* files of the real run are decoded by the model, re-encoded to the same bytes and compared with what both real loaders return")
             mism, viol = ctx.corr("pipeline_save_files", pre_obj, cases, shard=1, timeout=900)
             ctx.corr_report("pipeline_save_files", mism, viol)
     finally:
